@@ -606,7 +606,7 @@ func ServerCheck(sc sim.Scenario, h *sim.History, opt ServerOptions) []Problem {
 
 	for _, e := range h.Events {
 		switch e.Kind {
-		case "stop", "peerclose", "recvfault", "sendfault":
+		case "stop", "peerclose", "recvfault":
 			if e.Kind == "peerclose" && e.Flag == "epilogue" && !stopped {
 				finalCheck()
 			}
@@ -660,7 +660,9 @@ func ServerCheck(sc sim.Scenario, h *sim.History, opt ServerOptions) []Problem {
 			if m := byK[e.K]; m != nil && m.inv == e.Inv {
 				m.ctxDoneSeq, m.ctxDoneErr = e.Seq, e.Err
 			}
-		case "wire":
+		case "wire", "sendfault":
+			// (a record the channel refused was still produced and handed to Send:
+			// for what the server owes its peer it counts like one that went out)
 			if isPushRequest([]byte(e.Data)) {
 				continue // a server-initiated request, judged by PushCheck
 			}
